@@ -59,22 +59,22 @@ CLAIMS = {
              'the LUT value of the operands\' final values -- also when transitions are dropped by overflow -- starts at the LUT value of '
              'their initial values and yields a well-formed waveform within capacity (so the facts compose along op lists). The '
              'transcription, SimOps and capture are tied to the code by comparing the whole waveform memory, abuf and s[3..10] on '
-             'generated circuits; an independent Boolean evaluator is the oracle.',
+             'generated circuits; an independent Boolean evaluator is the oracle. FLAT MEMORY (C03_flat_refines): when every op\'s output region lies inside the memory and is disjoint from the region of every other tracked index (checked per generated case by the proved-sound regions_ok_b; what the allocator gives without c_reuse), c_prop on the flat waveform memory is total and the region of every index, read up to its terminator, IS the line-level waveform, and abuf is the line-level accumulation; the line-level semantics itself (wexec, wacc) is now compared with the real waveform memory / abuf on every generated case.',
         design_ref='5/C03',
         note='Modelled not verified: _wave_eval, s_to_c, c_to_s, SimOps (hand transcriptions). Time is modelled as extended integers: '
              'float32/float64 arithmetic is assumed exact on the integer grid with absorbing sentinels; off-grid rounding is not modelled. '
-             'The theorems are at line level (each signal carries its waveform up to the terminator); the flat waveform memory with capacities and reuse is tied by correspondence and the C08 certificate.'),
+             'Flat-memory refinement is proved for c_reuse off / no fork stripping under the per-case region certificate; with c_reuse or strip_forks the flat memory is tied by correspondence only.'),
     'C04': dict(
-        technique='Coq proofs: per-gate emit-is-sum, shift/scale equivariance (simulation relation), strict monotonicity; circuit-level STA window over any op list; whole-memory correspondence; STA/shift/scale/emit-sum/monotonicity oracle incl. single-gate stress',
+        technique='Coq proofs: per-gate emit-is-sum, shift/scale equivariance (simulation relation), strict monotonicity; circuit-level STA window, shift/scale equivariance and monotonicity over any op list; whole-memory correspondence; STA/shift/scale/emit-sum/monotonicity oracle incl. single-gate stress',
         text='Proof (full at op-list level on the exact time grid). PER GATE (any LUT, operands, delays): every emitted time is an operand '
              'time plus one of that operand line\'s four delays; shifting all operand times by delta shifts the result by exactly delta and '
              'scaling times and delays by any k>0 (in particular powers of two) scales it, counts and overflow unchanged; with polarity-free '
              'delays and increasing operands the result is strictly increasing (through overflow and pulse filtering). CIRCUIT LEVEL: for '
              'any op list every finite transition of every signal lies inside the window static timing analysis of the annotated op list '
-             'permits. Tied to the code by whole-memory correspondence; oracle: independent STA over the netlist, per-gate emit-is-sum on '
+             'permits; shifting (scaling) all input waveforms [and delays] shifts (scales) every signal\'s waveform for ANY op list with no side condition (C04_circuit_shift/_scale, rerun forms _inputs), and with polarity-free delays every waveform of the circuit is strictly increasing (C04_circuit_mono). Tied to the code by whole-memory and line-level correspondence; oracle: independent STA over the netlist, per-gate emit-is-sum on '
              'the implementation\'s waveforms, shifted (+16,-5) and scaled (x4, x1/2) reruns, single-gate stress with simultaneous arrivals.',
         design_ref='5/C04',
-        note='As C03: time is the integer/dyadic grid (float rounding off the grid is not modelled); circuit-level shift/scale equivariance follows from the per-gate theorems by the same induction but is checked by reruns, not stated as one theorem.'),
+        note='As C03: time is the integer/dyadic grid (float rounding off the grid is not modelled).'),
     'C05': dict(
         technique='Coq proofs: exhaustive hazard-soundness of the 8-valued algebra per primitive + no-change-no-edge invariant of _wave_eval; correspondence of both simulators',
         text='Proof (full at op-list level). CIRCUIT LEVEL: for any op list over the 33 opcodes, delays >= 0, capacities >= 4: if every input waveform is predicted by its 8-valued code (same init/final; no transition unless the code shows activity) then so is every signal -- a plain 0/1 of 8-valued logic simulation implies a transition-free waveform, and init/final agree. PER OP: (1) For every primitive and all known operand values: if the documented '
@@ -118,14 +118,20 @@ CLAIMS = {
         design_ref='5/C08',
         note='Modelled not verified: sim.Heap and SimOps.__init__ are hand transcriptions.'),
     'C13': dict(
-        technique='Coq proof that returned activity counts = edges of the stored waveform and of the overflow-mark rule; whole-memory correspondence; recount oracle',
-        text='Proof (partial). Proved per gate evaluation for all inputs: (nrise, nfall) equal the rising/falling transitions of the '
-             'waveform stored, and the overflow mark is set iff this evaluation dropped transitions or an operand carries the mark. '
-             'Capture (s[3..10]) and abuf accumulation are modelled and compared exactly with the code; oracle recounts from the stored '
-             'waveforms and re-simulates with capacity 64. Theorems about capture and "no mark => identical to unlimited capacity" are '
-             'in progress (Proofs/WaveEquiv.v, capture lemmas).',
+        technique='Coq proofs: returned activity counts = edges of the stored waveform; overflow-mark rule and its closure over op lists; accumulated switching activity = weighted edge sums for any op list; capture summary at circuit level and on the flat memory; whole-memory and line-level correspondence; recount oracle with generator-owned a_ctrl',
+        text='Proof (full at op-list level; flat memory under a per-case region certificate). PER GATE for all inputs: (nrise, nfall) equal the rising/falling transitions of the '
+             'waveform stored; the overflow mark is set iff this evaluation dropped transitions or an operand carries the mark; no mark => '
+             'identical to the result with any larger capacity. CAPTURE: the six summary values (initial, final, earliest, latest, value before T, '
+             'overflow flag) for every well-formed waveform. CIRCUIT LEVEL (any op list): the accumulator contents equal the initial contents plus the '
+             'weighted edge sums of the waveforms stored by the ops assigned to each accumulator (C13_wacc_running), equal to the sums over the FINAL '
+             'waveforms when no accumulating op is overwritten later (C13_wacc_final/_ssa, checker acc_once_b proved sound and evaluated per case); a '
+             'signal carries the overflow mark iff a transition was dropped somewhere in its fan-in or an input was marked (C13_ovf_reach); capture of every '
+             'signal of the op list has the six facts with initial/final = Boolean evaluation (C13_circuit_capture); on the flat memory a PPO slot '
+             'captures the line-level waveform of the line it aliases (C13_flat_capture). Tied to the code by whole-memory correspondence, by the '
+             'line-level correspondence (wexec / wacc vs the real memory / abuf) and by an oracle that recounts from the stored waveforms with the '
+             'generator-owned a_ctrl table (row of the LINE an op writes), checks every op carries that row, CPU and GPU capture, rerun with capacity 64.',
         design_ref='5/C13',
-        note='As C03; capture with sd>0 is outside the claim.'),
+        note='As C03; capture with sd>0 is outside the claim; flat-memory statements need the region certificate (c_reuse off, no fork stripping).'),
     'C17': dict(
         technique='Coq proof of Kahn-traversal theorems for all well-formed netlists over a Gallina transcription; exact-sequence correspondence; graph oracle',
         text='Proof (traversals full, name lookup partial). For ALL well-formed netlists (pins may be unconnected, cut at state elements) the '
